@@ -320,6 +320,9 @@ func hsClientConfig(r *h.Run, c hsConf, path, launch string, timeout time.Durati
 	if launch == "runner" {
 		conf := h.Conf{Path: path, Name: "plugin", Launch: "runner"}
 		cfg.RunnerFunc = r.ClientConfig(conf).RunnerFunc
+		if r.Spec.P("usc", "") == "empty" {
+			cfg.UnixSocketConfig = &plugin.UnixSocketConfig{}
+		}
 	} else {
 		cmd := simexec.Command(path)
 		cmd.SimName = "plugin"
@@ -468,6 +471,17 @@ func runHandshake(r *h.Run, prop string) {
 	if proc != nil && proc.Alive() {
 		r.Violate("process-left-behind", ctx+" after-kill", "plugin process alive after Kill")
 	}
+	if o.Err != nil && !rd.ok && holder == 0 {
+		// a refused line stays refused after Kill as well, and nothing is launched again
+		o3 := r.Do("Start(after-kill)", hsTimeout+30*time.Second, func() (any, error) { return cl.Start() })
+		if !o3.Hung && o3.Err == nil {
+			r.Violate("accepted-bad-line", fmt.Sprintf("reference=%q start-after-kill", rd.why), fmt.Sprintf("Start refused line %q; after Kill the same client's Start succeeded", firstLine(actual)))
+		}
+		if st.Launches > 1 {
+			r.Violate("accepted-bad-line", fmt.Sprintf("reference=%q relaunched-after-kill", rd.why), fmt.Sprintf("the plugin was launched %d times by one client", st.Launches))
+		}
+		r.Do("Kill#2", 150*time.Second, func() (any, error) { cl.Kill(); return nil, nil })
+	}
 	if launch == "runner" {
 		for _, p := range w.Paths() {
 			if strings.Contains(p, "plugin-dir") {
@@ -559,6 +573,16 @@ func hsSpecs(prop string, seed uint64, confs []hsConf, launches []string) []*k.S
 					line := buildLine(c, classes)
 					out = append(out, sp(prop, fmt.Sprintf("field/c%d/%s/f%d=%d", ci, launch, f, cl), seed, cp(c.params(), "launch", launch, "out", b64(line+"\n"))))
 				}
+			}
+			if launch == "runner" {
+				// a custom runner together with a UnixSocketConfig on the host
+				for f := 0; f < 6; f++ {
+					var classes [7]int
+					classes[f] = 2 + f%2
+					out = append(out, sp(prop, fmt.Sprintf("usc/c%d/f%d", ci, f), seed, cp(c.params(), "launch", launch, "usc", "empty", "out", b64(buildLine(c, classes)+"\n"))))
+				}
+				out = append(out, sp(prop, fmt.Sprintf("usc/c%d/silent", ci), seed, cp(c.params(), "launch", launch, "usc", "empty", "out", "", "end", "exit:2")))
+				out = append(out, sp(prop, fmt.Sprintf("usc/c%d/valid", ci), seed, cp(c.params(), "launch", launch, "usc", "empty", "out", b64(buildLine(c, [7]int{})+"\n"))))
 			}
 			// the tcp network with every address form (a pair of deviations)
 			for a := range hsFieldClasses[3] {
@@ -652,6 +676,9 @@ func hsRandom(prop string, seed uint64, n int, launches []string) []*k.Spec {
 		}
 		if u("listenon", 5) == 0 {
 			pp["listen"] = []string{"", "tcp"}[u("listen", 2)]
+		}
+		if pp["launch"] == "runner" && u("usc", 2) == 0 {
+			pp["usc"] = "empty" // the host also gave a UnixSocketConfig
 		}
 		if u("holderon", 8) == 0 {
 			pp["holder"] = []string{"3s", "20s", "45s"}[u("holder", 3)]
